@@ -1,6 +1,12 @@
+#[cfg(not(may_verif))]
 use parking_lot::{Condvar, Mutex};
+#[cfg(may_verif)]
+use crate::verif::pl::{Condvar, Mutex};
 
+#[cfg(not(may_verif))]
 use std::sync::atomic::{AtomicBool, Ordering};
+#[cfg(may_verif)]
+use crate::verif::atomic::{AtomicBool, Ordering};
 use std::sync::Arc;
 use std::time::Duration;
 
